@@ -16,11 +16,16 @@ import (
 
 // C08 — entity events: exactly once per committed change, none for undone work.
 
-func c08Cfg(extended bool) kit.WorldCfg {
-	return kit.WorldCfg{
+func c08Cfg(extended, second bool) kit.WorldCfg {
+	cfg := kit.WorldCfg{
 		Stores:   []kit.StoreCfg{{Name: "things", UniqueName: true, RolesIndex: true}},
 		Children: []kit.ChildCfg{{Name: "kids", Parent: "things", Extended: extended}},
 	}
+	if second {
+		// a second child type over the same parent (an entity belongs to at most one of them)
+		cfg.Children = append(cfg.Children, kit.ChildCfg{Name: "kids2", Parent: "things"})
+	}
+	return cfg
 }
 
 var c08Universe = kit.EntUniverse{
@@ -33,18 +38,22 @@ var c08Universe = kit.EntUniverse{
 }
 
 func genC08(t *rapid.T) kit.History {
-	cfg := c08Cfg(rapid.IntRange(0, 3).Draw(t, "extended") == 0)
+	second := rapid.IntRange(0, 2).Draw(t, "secondChild") == 0
+	cfg := c08Cfg(rapid.IntRange(0, 3).Draw(t, "extended") == 0, second)
 	return kit.GenHistory(t, cfg, 14, 4, false, 80, func(t *rapid.T, l string, m *kit.Model) kit.Op {
 		store := "things"
 		if rapid.Bool().Draw(t, l+"_viaChild") {
 			store = "kids"
+			if second && rapid.Bool().Draw(t, l+"_viaSecond") {
+				store = "kids2"
+			}
 		}
 		return kit.GenEntOpM(t, l, store, c08Universe, m)
 	})
 }
 
 // expectedEvents derives, from the model, the callbacks a committed transaction must produce.
-func expectedEvents(m *kit.Model, tx kit.TxSpec, extended bool) (evs []kit.Event, commits bool, ignoreKidIDs map[string]bool) {
+func expectedEvents(m *kit.Model, tx kit.TxSpec) (evs []kit.Event, commits bool, ignoreKidIDs map[string]bool) {
 	trial := m.Clone()
 	ignoreKidIDs = map[string]bool{}
 	for _, op := range tx.Ops {
@@ -67,10 +76,11 @@ func expectedEvents(m *kit.Model, tx kit.TxSpec, extended bool) (evs []kit.Event
 		case "delete":
 			typ, ent = "deleted", pre.Ents["things"][op.ID]
 		}
-		_, isKid := ent.Kid["kids"]
-		if extended && !isKid {
-			// an extended store "sees" every parent entity: whether it reports plain parents is not stated
-			ignoreKidIDs[op.ID] = true
+		for _, cc := range m.Cfg.Children {
+			if _, isKid := ent.Kid[cc.Name]; cc.Extended && !isKid {
+				// an extended store "sees" every parent entity: whether it reports plain parents is not stated
+				ignoreKidIDs[cc.Name+"|"+op.ID] = true
+			}
 		}
 		for _, style := range append(append([]string{}, kit.ListenerStyles...), "listener-async") {
 			info := kit.MEntInfo(ent, "")
@@ -78,12 +88,14 @@ func expectedEvents(m *kit.Model, tx kit.TxSpec, extended bool) (evs []kit.Event
 				info = ""
 			}
 			evs = append(evs, kit.Event{Store: "things", Style: style, Type: typ, ID: op.ID, Info: info})
-			if isKid {
-				kinfo := kit.MEntInfo(ent, "kids")
-				if style == "id-listener" {
-					kinfo = ""
+			for _, cc := range m.Cfg.Children {
+				if _, isKid := ent.Kid[cc.Name]; isKid {
+					kinfo := kit.MEntInfo(ent, cc.Name)
+					if style == "id-listener" {
+						kinfo = ""
+					}
+					evs = append(evs, kit.Event{Store: cc.Name, Style: style, Type: typ, ID: op.ID, Info: kinfo})
 				}
-				evs = append(evs, kit.Event{Store: "kids", Style: style, Type: typ, ID: op.ID, Info: kinfo})
 			}
 		}
 	}
@@ -96,7 +108,7 @@ func expectedEvents(m *kit.Model, tx kit.TxSpec, extended bool) (evs []kit.Event
 func runC08(h kit.History) kit.Result {
 	res := kit.Result{Sub: len(h.Txs)}
 	extended := h.Cfg.Children[0].Extended
-	res.Classes = append(res.Classes, fmt.Sprintf("extended:%v", extended))
+	res.Classes = append(res.Classes, fmt.Sprintf("extended:%v", extended), fmt.Sprintf("child-stores:%d", len(h.Cfg.Children)))
 	w, err := kit.NewWorld(h.Cfg)
 	if err != nil {
 		res.Err = err
@@ -109,14 +121,17 @@ func runC08(h kit.History) kit.Result {
 	w.Stores["things"].AddListener(func(e boltz.Entity) {
 		rec.Add(kit.Event{Store: "things", Style: "listener-async", Type: "?", ID: e.GetId()})
 	}, boltz.EntityCreatedAsync, boltz.EntityUpdatedAsync, boltz.EntityDeletedAsync)
-	w.Kids["kids"].AddListener(func(e boltz.Entity) {
-		rec.Add(kit.Event{Store: "kids", Style: "listener-async", Type: "?", ID: e.GetId()})
-	}, boltz.EntityCreatedAsync, boltz.EntityUpdatedAsync, boltz.EntityDeletedAsync)
+	for _, cc := range h.Cfg.Children {
+		name := cc.Name
+		w.Kids[name].AddListener(func(e boltz.Entity) {
+			rec.Add(kit.Event{Store: name, Style: "listener-async", Type: "?", ID: e.GetId()})
+		}, boltz.EntityCreatedAsync, boltz.EntityUpdatedAsync, boltz.EntityDeletedAsync)
+	}
 
 	m := kit.NewModel(h.Cfg)
 	multiOp, rollbackAfterWork, otherRoute := false, false, false
 	for i, tx := range h.Txs {
-		want, commits, ignoreKid := expectedEvents(m, tx, extended)
+		want, commits, ignoreKid := expectedEvents(m, tx)
 		var commitActions, earlyActions atomic.Int32
 		rec.Committed.Store(false)
 		rec.Drain()
@@ -151,7 +166,7 @@ func runC08(h kit.History) kit.Result {
 		// asynchronous listeners: wait (bounded) until the expected number has arrived
 		wantAsync := 0
 		for _, e := range want {
-			if e.Style == "listener-async" && !(e.Store == "kids" && ignoreKid[e.ID]) {
+			if e.Style == "listener-async" && !ignoreKid[e.Store+"|"+e.ID] {
 				wantAsync++
 			}
 		}
@@ -159,7 +174,7 @@ func runC08(h kit.History) kit.Result {
 		for {
 			n := 0
 			for _, e := range rec.Snapshot() {
-				if e.Style == "listener-async" && !(e.Store == "kids" && ignoreKid[e.ID]) {
+				if e.Style == "listener-async" && !ignoreKid[e.Store+"|"+e.ID] {
 					n++
 				}
 			}
@@ -182,7 +197,7 @@ func runC08(h kit.History) kit.Result {
 				res.Err = fmt.Errorf("%s: callback fired before the transaction committed: %+v\nhistory:\n%s", label, e, h)
 				return res
 			}
-			if e.Store == "kids" && ignoreKid[e.ID] {
+			if ignoreKid[e.Store+"|"+e.ID] {
 				continue
 			}
 			if e.Style == "listener-async" {
@@ -196,7 +211,7 @@ func runC08(h kit.History) kit.Result {
 			}
 		}
 		for _, e := range want {
-			if e.Store == "kids" && ignoreKid[e.ID] {
+			if ignoreKid[e.Store+"|"+e.ID] {
 				continue
 			}
 			if e.Style == "listener-async" {
@@ -255,7 +270,7 @@ func runC08(h kit.History) kit.Result {
 		}
 		if out.Committed {
 			for _, e := range want {
-				if e.Store == "kids" {
+				if e.Store != "things" {
 					for _, op := range tx.Ops {
 						if op.ID == e.ID && op.Store == "things" {
 							otherRoute = true
